@@ -1,13 +1,14 @@
 package pairs
 
 import (
+	"fmt"
 	"time"
+
+	abci "github.com/cometbft/cometbft/abci/types"
 
 	sdk "github.com/cosmos/cosmos-sdk/types"
 
 	chain "github.com/comdex-official/comdex/app"
-
-	"vh/sim"
 )
 
 // Fork is a throw-away continuation of a chain on a CacheContext branch of its readable state: blocks are run
@@ -32,17 +33,29 @@ func (c *Chain) Fork() *Fork {
 	return &Fork{App: c.App, Ctx: c.ReadCtx(), Height: h, Time: c.Time, c: c}
 }
 
-func (f *Fork) Begin(dt time.Duration) BlockRes {
+func (f *Fork) Begin(dt time.Duration) (br BlockRes) {
 	f.Height++
 	f.Time = f.Time.Add(dt)
 	f.Ctx = f.Ctx.WithBlockHeader(f.c.header(f.Height, f.Time)).WithGasMeter(sdk.NewInfiniteGasMeter()).WithBlockGasMeter(sdk.NewInfiniteGasMeter())
-	br := sim.BeginBlockOn(f.App, f.Ctx)
-	return BlockRes{Panic: br.Panic, Err: br.Err}
+	defer func() {
+		if r := recover(); r != nil {
+			br = BlockRes{Panic: true, Err: fmt.Sprint(r)}
+		}
+	}()
+	resp := f.App.BeginBlocker(f.Ctx, abci.RequestBeginBlock{Header: f.Ctx.BlockHeader()})
+	br.Ev, br.NEv, br.events = EventDigest(resp.Events), len(resp.Events), resp.Events
+	return
 }
 
-func (f *Fork) End() BlockRes {
-	br := sim.EndBlockOn(f.App, f.Ctx)
-	return BlockRes{Panic: br.Panic, Err: br.Err}
+func (f *Fork) End() (br BlockRes) {
+	defer func() {
+		if r := recover(); r != nil {
+			br = BlockRes{Panic: true, Err: fmt.Sprint(r)}
+		}
+	}()
+	resp := f.App.EndBlocker(f.Ctx, abci.RequestEndBlock{Height: f.Ctx.BlockHeight()})
+	br.Ev, br.NEv, br.events = EventDigest(resp.Events), len(resp.Events), resp.Events
+	return
 }
 
 func (f *Fork) Exec(st Step) TxRes { return ExecOn(f.App, f.Ctx, st) }
